@@ -82,3 +82,58 @@ def compile_dir(od, incdirs=(), want=("c", "fortran", "python", "lua")):
             if rc != 0:
                 fails.append({"file": f, "message": out.strip()[-700:]})
     return fails, done
+
+
+def link_check(od, incdirs=()):
+    """Symbol-level link validation of the C and Fortran wrappers: compile every generated C/C++ source and Fortran module
+    to an object, then require (1) every undefined external symbol in Shroud's own name space (contains 'Shroud' or 'SHROUD')
+    to be defined by a generated object, (2) no external symbol to be defined by two generated objects.
+    Symbols of the wrapped library and of language run times stay undefined (they come from the user's link line)."""
+    import shutil
+    inc = []
+    for d in list(incdirs) + [od]:
+        inc += ["-I", d]
+    obj = os.path.join(od, "_obj")
+    shutil.rmtree(obj, ignore_errors=True)
+    os.makedirs(obj)
+    files = sorted(f for f in os.listdir(od) if not f.startswith(("py", "lua")))
+    objs = []
+    fails = []
+    for f in files:
+        p = os.path.join(od, f)
+        o = os.path.join(obj, f + ".o")
+        if f.endswith(".cpp"):
+            rc, out = run(["g++", "-std=c++11", "-w", "-c", "-o", o] + inc + [p], od)
+        elif f.endswith(".c"):
+            rc, out = run(["gcc", "-std=c99", "-w", "-c", "-o", o] + inc + [p], od)
+        else:
+            continue
+        if rc == 0:
+            objs.append(o)
+    fs = [f for f in files if f.lower().endswith((".f", ".f90")) and f not in ("helpers.f",)]
+    base = ["gfortran", "-ffree-form", "-ffree-line-length-none", "-cpp", "-w", "-J", obj, "-c"]
+    for _ in range(3):
+        for f in fs:
+            o = os.path.join(obj, f + ".o")
+            rc, out = run(base + ["-o", o, os.path.join(od, f)], od)
+    for f in fs:
+        o = os.path.join(obj, f + ".o")
+        if os.path.exists(o):
+            objs.append(o)
+    defined, undefined = {}, {}
+    for o in objs:
+        rc, out = run(["nm", "-g", o], od)
+        for line in out.splitlines():
+            parts = line.split()
+            if len(parts) == 2 and parts[0] == "U":
+                undefined.setdefault(parts[1], []).append(os.path.basename(o))
+            elif len(parts) == 3 and parts[1] in "TDBRSC":
+                defined.setdefault(parts[2], []).append(os.path.basename(o))
+    for sym, where in sorted(undefined.items()):
+        if ("Shroud" in sym or "SHROUD" in sym) and sym not in defined:
+            fails.append({"file": where[0][:-2], "message": "undefined symbol %s (referenced by %s) is not defined by any generated file" % (sym, ", ".join(sorted(set(where))))})
+    for sym, where in sorted(defined.items()):
+        if len(where) > 1 and not sym.startswith(("_ZTS", "_ZTI", "_ZTV")):
+            fails.append({"file": where[0][:-2], "message": "symbol %s is defined by several generated files: %s" % (sym, ", ".join(where))})
+    shutil.rmtree(obj, ignore_errors=True)
+    return fails, len(objs)
